@@ -10,7 +10,7 @@ from sa.effects import accesses, class_accesses
 from sa.selftest import Mutant, Silent
 from sa.source import methods
 from sa.props._lib_b import (MiniBudget, MiniEval, MiniRaise, Unsupported, check_delayed_call, intra_class_calls, public_api_effects, lin_cmp, lin_cmp_text, lin_eq, linform,
-                              model_class, resolve_locals, swallowing_predicate)
+                              model_class, resolve_locals, swallowing_predicate, lin_text)
 
 PROPERTY = "C08"
 BASE = "internet/base.py"
@@ -18,22 +18,34 @@ MODNAME = "twisted.internet.base"
 R = MODNAME + ".ReactorBase"
 DC = MODNAME + ".DelayedCall"
 HEAP, NEW, CANC = "_pendingTimedCalls", "_newTimedCalls", "_cancellations"
-TECHNIQUE = "who-may-write kinds, CFG dominance/must-pass, symbolic linear paths, finite model evaluation"
+TECHNIQUE = "who-may-write closure, CFG dominance/must-pass, symbolic linear paths; model heaps as second layer"
+RULE_KINDS = {
+    "*": "structural",
+    # whole finite domain of the inspected quantity, with the domain argument checked on the code (see the obligation detail)
+    "heap/compaction-keeps-live-calls": "finite-exhaustive", "timeout/clamp-form": "finite-exhaustive",
+    # source interpreted on enumerated but bounded model inputs
+    "model/": "bounded", "heap/resetter-restores-order": "bounded", "timeout/bounded-by-earliest-call": "bounded",
+    "getDelayedCalls/exactly-pending": "bounded",
+}
 EXPLANATION = (
-    "Decides structurally: (a) heap ownership - _pendingTimedCalls is touched only by heappush/heappop/heapify, a compaction "
-    "re-bind that is always followed by heapify, and the sift-up of the resetter, which is itself evaluated on every small "
-    "model heap (heap property and contents preserved); callLater only appends to the staging list; (b) key discipline of "
-    "DelayedCall by symbolic linear path evaluation of reset/delay/activate_delay - effective time equations, the heap key "
-    "`time` only ever decreases under a guard that proves the decrease and is then followed by resetter(self), otherwise "
-    "delayed_time stays >= 0; __lt__/__le__/getTime evaluated on a finite grid; cancel() marks and notifies; (c) in "
-    "runUntilCurrent the call-out is dominated by not-cancelled, not-delayed and the exact boundary head.time <= now, the "
-    "call is popped and marked called first, is isolated by a log-and-continue context after which the loop continues, every "
-    "popped live call is run or re-pushed (with its delay folded into the key), the loop re-examines the heap after each call, "
-    "new calls are inserted before the loop only and activate_delay is applied only to calls outside "
-    "the heap; (d) staging list fully drained and cleared; _cancellations coupled with dropped cancelled calls and with "
-    "compaction, whose filter keeps exactly the live calls; (e) timeout() and getDelayedCalls() evaluated on model reactors "
-    "(0 <= timeout <= time to head; exactly the live calls of both lists).  Not decided: wall-clock timeliness, float rounding, "
-    "reactor-specific doIteration loops, whole-history enumeration."
+    "Structural deciders (for-all): heap ownership - who-may-write by operation kind closed over the intra-class call graph "
+    "(only heappush/heappop/heapify/plain sort, a re-bind always followed by heapify, subscript stores only in the resetter); "
+    "who-may-mutate through the public API (no public method nor the canceller/resetter reachable from user code moves staged "
+    "calls into the heap); DelayedCall key discipline by symbolic linear evaluation of EVERY path of reset/delay/activate_delay "
+    "(effective-time equations, the key `time` changes only under a guard proving a decrease and is followed by resetter(self), "
+    "delayed_time >= 0 otherwise), __lt__/__le__/getTime as linear normal forms, cancel() marks and notifies on every live path; "
+    "callLater wiring (def-use); runUntilCurrent and _insertNewDelayedCalls by CFG dominance / must-pass with exception edges "
+    "(exact boundary head.time <= now as a normal form, not-cancelled and not-delayed dominate the call-out, popped and marked "
+    "before the call, isolated by a log-and-continue context, every popped live call run or re-pushed with its delay folded in, "
+    "loop re-examined after each call, new calls inserted before the loop only, staging list drained and cleared, _cancellations "
+    "coupled, compaction followed by heapify); timeout() inserts first and reads only the head's key.  Finite-exhaustive: the "
+    "compaction filter over the whole domain of `cancelled` (element-wise shape checked); timeout()'s clamp as a max/min selection "
+    "over d = head.time - seconds() evaluated on every order class of d against its constants (0 <= result <= max(0, d)).  "
+    "Bounded evidence only: 'the resetter restores heap order' (sift-up evaluated on every valid heap of up to 7 calls x position "
+    "x decreased key - a for-all proof needs a loop invariant over unbounded heaps, out of reach of these rule kinds; the "
+    "structural part is that only the resetter may store by subscript); second layers on model reactors for timeout() with "
+    "postponed heads and getDelayedCalls() (whose structural part is only 'consults both lists and the cancelled flag').  "
+    "Not decided: wall-clock timeliness, float rounding, reactor-specific doIteration loops."
 )
 ASSUMPTIONS = [
     "heapq implements a binary min-heap over __lt__ (stdlib)",
@@ -548,7 +560,19 @@ def _check_run(ctx, mod, cls, Elem):
                     bad = f"from calls with cancelled flags {[e.cancelled for e in live]} it keeps those with flags {[e.cancelled for e in got]}"
             except (MiniRaise, MiniBudget, TypeError, AttributeError, ValueError) as e:
                 bad = f"the filter does not evaluate ({type(e).__name__}: {e})"
-            ctx.check(bad is None, "heap/compaction-keeps-live-calls", c, f"compaction does not keep exactly the uncancelled calls: {bad}")
+            v = a.node.value
+            elementwise = (isinstance(v, ast.ListComp) and len(v.generators) == 1 and isinstance(v.generators[0].target, ast.Name)
+                           and isinstance(v.elt, ast.Name) and v.elt.id == v.generators[0].target.id and _self_attr(v.generators[0].iter, HEAP)
+                           and all(isinstance(x, ast.Attribute) and x.attr == "cancelled" and isinstance(x.value, ast.Name) and x.value.id == v.elt.id
+                                   for cond in v.generators[0].ifs for x in ast.walk(cond) if isinstance(x, (ast.Attribute, ast.Name)) and not (
+                                       isinstance(x, ast.Name)) ) and not any(isinstance(x, ast.Call) for cond in v.generators[0].ifs for x in ast.walk(cond)))
+            if elementwise:
+                ctx.check(bad is None, "heap/compaction-keeps-live-calls", c, f"compaction does not keep exactly the uncancelled calls: {bad}",
+                          detail="element-wise filter `[x for x in heap if P(x.cancelled)]` (shape checked): P evaluated for cancelled in {0, 1}, "
+                                 "the whole domain of the flag, on calls in every position")
+            else:
+                ctx.note("heap/compaction-keeps-live-calls: filter shape not recognised, clause left to model/compaction-keeps-live-calls")
+                ctx.check(bad is None, "model/compaction-keeps-live-calls", c, f"compaction does not keep exactly the uncancelled calls: {bad}")
             z = [n for n in zeros if isinstance(g.node(n).ast.value, ast.Constant) and g.node(n).ast.value.value == 0]
             coupled = bool(z) and all(any(g.dominates(x, n) for x in z) or g.must_pass([n], z, exc=False) is None for n in nodes)
             ctx.check(coupled, "cancellations/coupled", c + " | <count reset>", "cancelled calls are removed from the heap without resetting _cancellations")
@@ -558,6 +582,57 @@ def _check_run(ctx, mod, cls, Elem):
                 any(g.dominates(x, n) for x in nodes) or g.must_pass([n], nodes, exc=False) is None)
             ctx.check(ok, "cancellations/coupled", ctx.construct(q, g.node(n).ast),
                       "_cancellations is reset although the cancelled calls stay in the heap (they will be un-counted again when popped)")
+
+
+def _timeout_clamp_form(ctx, f, q, al):
+    """timeout() returns a max/min selection over {d, constants} with d = head.time - seconds(): such a function is
+    continuous, piecewise either `d` or a constant with breakpoints only at the constants, so checking 0 <= f(d) <= max(0, d)
+    at every constant and inside every interval between them (and beyond the extremes) decides it for every d."""
+    rets = [r for r in ast.walk(f) if isinstance(r, ast.Return) and r.value is not None and not (isinstance(r.value, ast.Constant) and r.value.value is None)]
+    if len(rets) != 1:
+        ctx.note("timeout/clamp-form: not a single value-returning return, clause left to timeout/bounded-by-earliest-call")
+        return
+    e = resolve_locals(f, rets[0].value)
+    want = ({f"self.{HEAP}[0].time": 1, "self.seconds()": -1}, 0)
+    consts = set()
+    dterms = []
+
+    def shape(x):
+        if isinstance(x, ast.Call) and dotted(x.func) in ("max", "min") and x.args and not x.keywords:
+            subs = [shape(a) for a in x.args]
+            return None if any(sub is None for sub in subs) else (dotted(x.func), subs)
+        if isinstance(x, ast.Constant) and isinstance(x.value, (int, float)) and not isinstance(x.value, bool):
+            consts.add(x.value)
+            return ("c", x.value)
+        lf = linform(x)
+        if lf is not None and lf[0]:
+            dterms.append((lf, x))
+            return ("d",)
+        return None
+    sh = shape(e)
+    if sh is None or not dterms:
+        ctx.note("timeout/clamp-form: return expression is not a max/min selection, clause left to timeout/bounded-by-earliest-call")
+        return
+    for lf, x in dterms:
+        ctx.check(lin_eq(lf, want), "timeout/clamp-form", ctx.construct(q, x),
+                  f"the sleep time is derived from `{lin_text(lf)}`, not from `head.time - seconds()`: only the heap key of the head lower-bounds "
+                  "every pending call", detail="linear form of the clamped quantity")
+
+    def ev(t, d):
+        if t[0] == "c":
+            return t[1]
+        if t[0] == "d":
+            return d
+        vals = [ev(u, d) for u in t[1]]
+        return max(vals) if t[0] == "max" else min(vals)
+    cs = sorted(consts | {0})
+    reps = [cs[0] - 1] + [x for i, c in enumerate(cs) for x in ([c] + ([(c + cs[i + 1]) / 2] if i + 1 < len(cs) else []))] + [cs[-1] + 1, cs[-1] * 2 + 10]
+    bad = next((d for d in reps if not (0 <= ev(sh, d) <= max(0, d))), None)
+    ctx.check(bad is None, "timeout/clamp-form", q + " | <0 <= timeout <= max(0, head.time - seconds())>",
+              f"with head.time - seconds() = {bad} timeout() returns {ev(sh, bad) if bad is not None else ''}: the reactor may sleep past the earliest call "
+              "(or gets a negative timeout)",
+              detail=f"max/min selection over d and the constants {cs}: evaluated at every constant, inside every interval and beyond both ends "
+                     f"({len(reps)} representatives) - piecewise (d | constant) with breakpoints only there, hence for every d")
 
 
 # =============================================================================== timeout / getDelayedCalls
@@ -578,6 +653,7 @@ def _check_timeout(ctx, mod, cls, Elem):
             ctx.check(node.attr not in ("getTime", "delayed_time"), "timeout/uses-heap-key", ctx.construct(q, node),
                       f"timeout() reads `{node.attr}` of the heap head: the heap is ordered by `time` only, so the head's scheduled time "
                       "(time + delayed_time) says nothing about the other pending calls - one of them may be due earlier and the reactor oversleeps")
+    _timeout_clamp_form(ctx, f, q, al)
     Reactor = model_class(cls, "ReactorModel")
     bad = None
     n = 0
@@ -637,6 +713,13 @@ def _check_timeout(ctx, mod, cls, Elem):
 def _check_get_delayed_calls(ctx, mod, cls, Elem):
     f = ctx.func(BASE, "ReactorBase.getDelayedCalls")
     q = R + ".getDelayedCalls"
+    # structural: both lists and the cancelled flag are consulted (directly or in a private helper called from here)
+    bodies = [f] + [methods(cls)[call_name(c)[5:]] for c in ast.walk(f) if isinstance(c, ast.Call) and (call_name(c) or "").startswith("self.")
+                    and call_name(c)[5:] in methods(cls) and call_name(c)[5:].startswith("_")]
+    seen = {x.attr for b in bodies for x in ast.walk(b) if isinstance(x, ast.Attribute)}
+    for need, why in ((HEAP, "calls already in the heap are not listed"), (NEW, "calls scheduled but not yet inserted are not listed"),
+                      ("cancelled", "cancelled calls are listed as pending")):
+        ctx.check(need in seen, "getDelayedCalls/consults-both-lists", f"{q} | {need}", f"getDelayedCalls() never looks at `{need}`: {why}")
     Reactor = model_class(cls, "ReactorModel")
     a, b, c, d, e = (Elem(time=t, delayed_time=0.0, cancelled=cn, called=0) for t, cn in ((1, 0), (2, 1), (3, 1), (4, 0), (5, 0)))
     r = Reactor(**{HEAP: [a, b, e], NEW: [c, d], CANC: 2})
